@@ -133,7 +133,9 @@ def finish(result: Result, tier: str, seed: int, t0: float, evidence_dir: Option
     known = [k for k in load_known() if k.get("property") == prop and k.get("status") == "known"]
     def _norm_known(key: str) -> str:
         parts = key.split("|", 2)
-        return key if len(parts) < 3 else f"{parts[0]}|{parts[1]}|{alpha(parts[1], parts[2])}"
+        if len(parts) < 3 or "$" in parts[2]:
+            return key          # stored in normalised form ($n placeholders for local variables)
+        return f"{parts[0]}|{parts[1]}|{alpha(parts[1], parts[2])}"
     for k in known:
         k["key"] = _norm_known(k["key"])
     known_keys = {k["key"]: k for k in known}
